@@ -485,6 +485,7 @@ func runC02(r *Run) {
 		}
 	}
 	r.Floor("R4", "bank-moving effect sites in precompile handlers", nMoving, 9)
+	r.Rule("R4t", "PATH.mirror-targets: a StateDB balance write made by a precompile handler is a mirror (not a second credit/debit) only if the account's state object was loaded before the bank change — the frame's caller, the origin, or an address read through the StateDB before the Cosmos-side effect on every path")
 	// mirror targets: a StateDB balance write made by a precompile handler is only a mirror (and not a second
 	// credit/debit) if the account's state object was loaded BEFORE the bank change. That is guaranteed for
 	// contract.CallerAddress (the frame's caller exists in the StateDB) and the origin (loaded when the message
@@ -526,7 +527,7 @@ func runC02(r *Run) {
 					return ok && (callInfo(c).Recv == "Keeper" || strings.HasSuffix(callInfo(c).Recv, "Keeper"))
 				})
 				if known && !fromKeeper {
-					r.OK("R4", inst, P.Pos(instrPos(ci.Instr)), "mirrors the frame's caller / the origin (loaded before the bank change)")
+					r.OK("R4t", inst, P.Pos(instrPos(ci.Instr)), "mirrors the frame's caller / the origin (loaded before the bank change)")
 					return
 				}
 				// otherwise: a StateDB read of the same address value must precede every effect
@@ -539,12 +540,12 @@ func runC02(r *Run) {
 					return len(a) > 0 && stripValue(a[len(a)-1]) == same
 				})
 				w := PathQuery{Fn: h.Fn, Block: isLoad, Target: isEffect}.Search()
-				r.Check(w == nil && len(sites) > 0, "R4", inst, P.Pos(instrPos(ci.Instr)), "the mirrored account is read through the StateDB before the Cosmos-side effect",
+				r.Check(w == nil && len(sites) > 0, "R4t", inst, P.Pos(instrPos(ci.Instr)), "the mirrored account is read through the StateDB before the Cosmos-side effect",
 					"the handler writes a balance change into the StateDB for an account that is neither the frame's caller nor the origin and that was not loaded into the StateDB before the Cosmos-side change: the state object is created after the bank change, already contains it, and the mirror adds it a second time — the final Commit mints (or burns) the difference", P.witness(w)...)
 			})
 		}
 	}
-	r.Floor("R4", "StateDB balance mirrors in precompile handlers", nMirror, 3)
+	r.Floor("R4t", "StateDB balance mirrors in precompile handlers", nMirror, 3)
 	r.Count("R4 effect sites classified non-moving", nNonMoving)
 
 	// ---------- R11: a mirror after a reward-paying effect is measured, not assumed ----------
